@@ -153,6 +153,8 @@ func boundText(quick bool) string {
 	}
 	sb.WriteString(" || world/hist layers: ")
 	sb.WriteString(worldBoundText(quick))
+	sb.WriteString("; ")
+	sb.WriteString(resubBoundText(quick))
 	return sb.String()
 }
 
